@@ -44,7 +44,7 @@ func run(c *vf.Ctx) {
 		return
 	}
 
-	nCases := c.N(2000, 48000)
+	nCases := c.N(2000, 30000)
 	nw := maxWorkers
 	per := (nCases + nw - 1) / nw
 	var wg sync.WaitGroup
